@@ -29,6 +29,11 @@ Third-party interference (section "third-party interference with Establish" belo
 `establishI` / `reconcileRevI` / `runHistoryI` are the same code with another client
 deleting, re-creating or re-owning objects after the validate phase, right before
 each real write, and between reconciles; `establish` is `establishI … Interf.none`.
+
+`Model/C16World.lean` goes on: third-party writes also DURING the validate phase and
+INSIDE ReleaseObjects, cached reads of the validate phase that miss or lag, and a stale
+read of the revision itself (`establishV`, `releaseV`, `reconcileRevV`, `runHistoryV`;
+`establishI` etc. are the special case).
 -/
 namespace Xp.C16
 
